@@ -132,10 +132,32 @@ func init() {
 			if hasName != "" {
 				odNames[hasName] = "?has"
 			}
+			upsF := r.P.Field("workers/operator", "TimerRegistry", "upstreams")
 			ast.Inspect(f.Decl.Body, func(nd ast.Node) bool {
-				if as, ok := nd.(*ast.AssignStmt); ok && len(as.Lhs) == 1 && len(as.Rhs) == 1 && r.exprCalls(info, as.Rhs[0], minFunc) {
-					if id, ok := as.Lhs[0].(*ast.Ident); ok {
-						odNames[id.Name] = "watermark"
+				if _, isLit := nd.(*ast.FuncLit); isLit {
+					return false
+				}
+				switch x := nd.(type) {
+				case *ast.AssignStmt:
+					// (inspect: the MinFunc call may sit in an extracted helper)
+					if len(x.Lhs) == 1 && len(x.Rhs) == 1 && r.exprCalls(info, x.Rhs[0], minFunc) {
+						if id, ok := x.Lhs[0].(*ast.Ident); ok {
+							odNames[id.Name] = "watermark"
+						}
+					}
+				case *ast.RangeStmt:
+					// a hand-written minimum over the upstreams (its correctness is C11.d's business)
+					if prog.SelField(info, x.X) == upsF {
+						ast.Inspect(x.Body, func(m ast.Node) bool {
+							if as, ok := m.(*ast.AssignStmt); ok && as.Tok == token.ASSIGN {
+								for _, l := range as.Lhs {
+									if o, ok := prog.IdentObj(info, l).(*types.Var); ok && o.Type().String() == "time.Time" && (o.Pos() < x.Pos() || o.Pos() > x.End()) {
+										odNames[o.Name()] = "watermark"
+									}
+								}
+							}
+							return true
+						})
 					}
 				}
 				return true
